@@ -500,7 +500,7 @@ Definition last_value (cms : list cmd) (k : N) : option N :=
   fold_left (fun acc cm => match find k (of_list (cmd_ents cm)) with Some v => Some v | None => acc end)
             cms None.
 
-Definition okb (c : case) : bool :=
+Definition okb_base (c : case) : bool :=
   let progs := map snd (c_progs c) in
   let n := length progs in
   let '(ok, saved) := obs_walk c progs (repeat None n) [] (c_steps c) in
@@ -511,6 +511,157 @@ Definition okb (c : case) : bool :=
                            | Some v => option_eqb N.eqb (nth (N.to_nat k) lkf None) (Some v)
                            | None => true
                            end) (keys_upto (c_nkeys c))).
+
+(* ------------------------------------------------------------------ strict sequential-wins *)
+(** Causal order on saves, reconstructed from the trace. Saves are numbered in the order
+    their commands begin. Every table in the heads directory carries the set of saves whose
+    effects went into it ([dir]); a save's base is the set of the table it started from;
+    s1 < s2 iff s1 is in the base of s2 (bases are cumulative, so this is transitive, also
+    through reconciliations). *)
+Definition hist := list nat.
+Definition memh (x : nat) (h : hist) : bool := existsb (Nat.eqb x) h.
+
+Record pst := mk_pst {
+  ps_prog : list cmd;
+  ps_cmd : option cmd;      (* command in progress *)
+  ps_sid : nat;             (* its save number (CWrite / CStale) *)
+  ps_h : hist;              (* saves included in the table it is working on *)
+  ps_pre : nat;             (* add_head calls still to come before the save's own one *)
+  ps_cur : hist             (* saves included in the table it has loaded *)
+}.
+
+Record hws := mk_hws {
+  hw_procs : list pst;
+  hw_dir : list (nat * hist);            (* table id -> saves it includes *)
+  hw_saves : list (nat * ents);          (* save number -> entries written *)
+  hw_bases : list (nat * hist);          (* save number -> saves it started from *)
+  hw_loads : list (hist * list (option N));   (* every load: saves included, lookups *)
+  hw_reads : list (list (nat * hist))    (* every read of two or more heads *)
+}.
+
+Definition dir_get (d : list (nat * hist)) (t : nat) : hist :=
+  concat (map snd (filter (fun p => fst p =? t) d)).
+Definition default_pst : pst := mk_pst [] None 0 [] 0 [].
+
+Definition hw_step (w : hws) (o : obs) : hws :=
+  let pid := o_pid o in
+  let p := nth pid (hw_procs w) default_pst in
+  (* 1. a command begins *)
+  let '(p1, saves1) :=
+    match o_label o, ps_cmd p, ps_prog p with
+    | OBegin, None, cm :: rest =>
+      let sid := length (hw_saves w) in
+      match cm with
+      | CRead => (mk_pst rest (Some cm) 0 [] 1000 (ps_cur p), hw_saves w)
+      | CWrite es => (mk_pst rest (Some cm) sid [] 1 (ps_cur p), hw_saves w ++ [(sid, es)])
+      | CStale es => (mk_pst rest (Some cm) sid (ps_cur p) 0 (ps_cur p), hw_saves w ++ [(sid, es)])
+      end
+    | _, _, _ => (p, hw_saves w)
+    end in
+  (* 2. the step itself *)
+  let '(p2, dir2, bases2, reads2) :=
+    match o_label o with
+    | ORead ts =>
+      let h := concat (map (dir_get (hw_dir w)) ts) in
+      let pre := match ps_cmd p1 with
+                 | Some (CWrite _) => if length ts =? 1 then 0 else 1
+                 | _ => ps_pre p1
+                 end in
+      (mk_pst (ps_prog p1) (ps_cmd p1) (ps_sid p1) h pre (ps_cur p1), hw_dir w, hw_bases w,
+       if 2 <=? length ts then hw_reads w ++ [map (fun t => (t, dir_get (hw_dir w) t)) ts]
+       else hw_reads w)
+    | OAdd t =>
+      if ps_pre p1 =? 0 then
+        let h' := ps_sid p1 :: ps_h p1 in
+        (mk_pst (ps_prog p1) (ps_cmd p1) (ps_sid p1) h' 1000 (ps_cur p1),
+         (t, h') :: hw_dir w, hw_bases w ++ [(ps_sid p1, ps_h p1)], hw_reads w)
+      else
+        (mk_pst (ps_prog p1) (ps_cmd p1) (ps_sid p1) (ps_h p1) (ps_pre p1 - 1) (ps_cur p1),
+         (t, ps_h p1) :: hw_dir w, hw_bases w, hw_reads w)
+    | ORemove t => (p1, filter (fun q => negb (fst q =? t)) (hw_dir w), hw_bases w, hw_reads w)
+    | _ => (p1, hw_dir w, hw_bases w, hw_reads w)
+    end in
+  (* 3. the command ends *)
+  let '(p3, loads3) :=
+    match o_done o with
+    | Some (_, lk) =>
+      (mk_pst (ps_prog p2) None 0 [] 0 (ps_h p2), hw_loads w ++ [(ps_h p2, lk)])
+    | None => (p2, hw_loads w)
+    end in
+  mk_hws (set_nth pid p3 (hw_procs w)) dir2 saves1 bases2 loads3 reads2.
+
+Definition hw_run (c : case) : hws :=
+  let w0 := mk_hws (map (fun ip => mk_pst (snd ip) None 0 [] 0 []) (c_progs c)) [] [] [] [] [] in
+  let w := fold_left hw_step (c_steps c) w0 in
+  (* the fresh instance's get_head() after everybody was killed *)
+  let fin := map (fun t => (t, dir_get (hw_dir w) t)) (c_final_order c) in
+  mk_hws (hw_procs w) (hw_dir w) (hw_saves w) (hw_bases w)
+         (hw_loads w ++ [(concat (map snd fin), snd (c_final c))])
+         (if 2 <=? length fin then hw_reads w ++ [fin] else hw_reads w).
+
+(** value save [s] wrote for [k] (the last one, as BTreeMap::insert does) *)
+Definition save_val (w : hws) (s : nat) (k : N) : option N :=
+  match find (N.of_nat s) (map (fun p => (N.of_nat (fst p), 0%N)) (hw_saves w)) with
+  | None => None
+  | Some _ => find k (of_list (concat (map snd (filter (fun p => fst p =? s) (hw_saves w)))))
+  end.
+Definition save_base (w : hws) (s : nat) : hist :=
+  concat (map snd (filter (fun p => fst p =? s) (hw_bases w))).
+
+(** The strict rule: a loaded value of [k] must be the value of some save included in the
+    loaded table that has no causal successor, also included, that wrote [k] too. *)
+Definition strict_val_ok (w : hws) (h : hist) (k v : N) : bool :=
+  existsb (fun s =>
+    option_eqb N.eqb (save_val w s k) (Some v)
+    && negb (existsb (fun s2 => negb (s2 =? s)
+                                && match save_val w s2 k with Some _ => true | None => false end
+                                && memh s (save_base w s2)) h)) h.
+
+Definition strict_failures (c : case) (w : hws) : list (N * N) :=
+  concat (map (fun hl =>
+    concat (map (fun kv => match snd kv with
+                           | Some v => if strict_val_ok w (fst hl) (fst kv) v then [] else [(fst kv, v)]
+                           | None => []
+                           end)
+                (combine (keys_upto (c_nkeys c)) (snd hl)))) (hw_loads w)).
+
+Definition strict_ok (c : case) : bool :=
+  match strict_failures c (hw_run c) with [] => true | _ => false end.
+
+(** Known-finding class squash-rerecords-inherited-value (Props/C21.v C21_strict_refuted):
+    at some read of two or more heads, head [a] physically holds [k -> v] in a segment it
+    does not share with head [b], although no save that went into [a] but not into [b] wrote
+    that; it was copied there from the common history by maybe_squash_with_ancestors; and [b]
+    holds another value of [k] written by a save that started from a table already holding
+    [k -> v]. Which of the two wins is then decided by read_dir order. *)
+Fixpoint suffixes (t : table) : list table :=
+  match t with [] => [] | _ :: r => t :: suffixes r end.
+Fixpoint unshared (a b : table) : list ents :=
+  match a with
+  | [] => []
+  | e :: r => if memt a (suffixes b) then [] else e :: unshared r b
+  end.
+
+Definition rerecord_witness (c : case) (w : hws) (k v : N) : bool :=
+  existsb (fun rd =>
+    existsb (fun a => existsb (fun b =>
+      let ta := tab c (fst a) in
+      let tb := tab c (fst b) in
+      negb (fst a =? fst b)
+      && existsb (fun f => option_eqb N.eqb (find k f) (Some v)) (unshared ta tb)
+      && match lookup tb k with
+         | Some vb => negb (vb =? v)%N
+         | None => false
+         end
+      && forallb (fun s => memh s (snd b) || negb (option_eqb N.eqb (save_val w s k) (Some v))) (snd a)
+      && existsb (fun s2 =>
+           match save_val w s2 k with Some _ => true | None => false end
+           && existsb (fun s1 => option_eqb N.eqb (save_val w s1 k) (Some v)) (save_base w s2))
+           (snd b)) rd) rd) (hw_reads w).
+
+Definition rerecord_class (c : case) : bool :=
+  let w := hw_run c in
+  forallb (fun kv => rerecord_witness c w (fst kv) (snd kv)) (strict_failures c w).
 
 (** Known-finding class (see Props/C21.v, C21_overlap_refuted): two instances inside their
     add/remove phases at the same time, which needs an ineffective lock or a writer that
@@ -532,7 +683,15 @@ Fixpoint overlap_walk (inside : list bool) (l : list obs) : bool :=
 Definition overlapping (c : case) : bool :=
   overlap_walk (repeat false (length (c_progs c))) (c_steps c).
 
+Definition okb (c : case) : bool := okb_base c && strict_ok c.
+
+(** The known bit needs: the model reproduces the run (a correspondence disagreement is never
+    known), every failed part lies in its class. *)
 Definition check_case (c : case) : N :=
   let corr := corr c in
   let prop := okb c in
-  verdict corr prop (negb prop && corr && overlapping c) 1.
+  let known :=
+    negb prop && corr
+    && (okb_base c || overlapping c)
+    && (strict_ok c || rerecord_class c || overlapping c) in
+  verdict corr prop known 1.
